@@ -50,78 +50,126 @@ PROPS['C07'] = dict(
 
 PROPS['C01'] = dict(
     unit_modules=['contracts.c01_precedence'], driver_modules=['drivers.c01'], level='other',
-    level_text='tbd', level_note='tbd', assumptions=COMMON_ASSUMPTIONS,
+    level_text="Premises of the operator-precedence theorem, each a discharged obligation on the REAL code: the pop rule of the real shunting-yard loop for every ordered pair of the 13 operator tokens (finite, complete); build_ast wiring of infix / prefix / function nodes over opaque operands; OperatorNode.eval for every operator over SYMBOLIC numbers (value, operand order, x/0), and its compositionality (1-3 stacked prefix minuses over every infix node apply to the VALUE of the sub-tree); the tokenizer's prefix/infix decision for a symbolic kind of the preceding token. The conclusion - tree and value equality for every formula - is bounded: all operator pairs and triples in every bracketing, 1500 (quick) / 15000 (thorough) seeded deeper expressions, against an independent precedence-climbing reference and exact rational arithmetic. Claimed 'other': the induction that composes the premises into the statement for formulas of any length is argued in DESIGN.md, not machine-checked.",
+    level_note='Trusted: pow() as an uninterpreted function with natively tested axioms; floats as reals (rounding invisible to the proof - the bounded layer compares against float and rational references); the tokenizer loop is entered by slicing one `while` of the real function (anchored by its guard text; if the loop is rewritten the unit goes undecided); pyvc interpreter (CPython cross-check + canaries); z3/cvc5.',
+    trusted_base=['intrinsic axioms of the uninterpreted builtins (pyvc/models.py UF_AXIOMS), natively tested on every run', 'loop slicing of tokenizer.getTokens anchored by guard text'],
+    explanation='C01: operator-precedence premises proved on the real parser/evaluator code; formulas of bounded depth checked against an independent reference.', assumptions=COMMON_ASSUMPTIONS,
 )
 
 PROPS['C02'] = dict(
     unit_modules=['contracts.c02_tokenizer'], driver_modules=['drivers.c02'], level='other',
-    level_text='tbd', level_note='tbd', assumptions=COMMON_ASSUMPTIONS,
+    level_text="Step contracts of the REAL tokenizer scan loop (one iteration sliced out of ExcelParser.getTokens, nested helpers and token classes real): for ALL (formula, offset, pending token, mode flags) an iteration raises no IndexError and strictly advances without passing the end (with a loop contract for the inner blank-skipping loop: invariant + variant); inside a string literal / quoted sheet name every character is kept, a doubled quote stands for one, the closing quote emits the literal unchanged / ends the name; the opening quote only switches the mode whatever follows it. By induction over the literal these give 'each string literal keeps its exact characters'. Everything else of the statement (one node per construct, argument counts, whitespace, scientific notation, function nesting) is BOUNDED: a systematic grammar enumeration and seeded random formulas compared with an independent recursive-descent reference parser. Claimed 'other'.",
+    level_note="Trusted: facts about well-formed input used as preconditions (formula does not end in ',', '%' follows a numeric literal); string theory of z3/cvc5 (per-path queries, 20 s); float(token) as uninterpreted; loop slicing anchored by the guard text; pyvc interpreter (cross-check + canary).",
+    trusted_base=['intrinsic axioms of the uninterpreted builtins (pyvc/models.py UF_AXIOMS), natively tested on every run', 'loop slicing of tokenizer.getTokens anchored by guard text', 'reference parser in drivers/c02.py (bounded layer oracle)'],
+    explanation='C02: index safety/progress and literal-preservation step contracts proved on the real scan loop; tree equality bounded against a reference parser.', assumptions=COMMON_ASSUMPTIONS,
 )
 
 PROPS['C03'] = dict(
     unit_modules=['contracts.c03_references'], driver_modules=['drivers.c03'], level='other',
-    level_text='tbd', level_note='tbd', assumptions=COMMON_ASSUMPTIONS,
+    level_text="On the real code, for ALL strings/values: EvalContext gives a cell's formula the sheet of its own address; RangeNode.full_address drops $ markers and prefixes the context sheet unless qualified; a single-cell reference looks up exactly the canonical address and restores the context sheet; a range evaluates each address of its extent exactly once in row-major order through an opaque logged eval_cell, and every stored non-empty or formula cell lies inside the evaluated extent however many empty cells precede it (symbolic content of the far cell). Which addresses a range text denotes (utils.resolve_ranges) is decided by a COMPLETE sweep over every starting column 1..18278 for widths <= 4, and the column-letter bijection over all 18278 columns; sheets needing quotes, $-spellings, sparse ranges up to 400 cells, names and cross-sheet chains are bounded. Claimed 'other'.",
+    level_note='Trusted: openpyxl range_boundaries/get_column_letter (swept, not proved); regular expressions run natively on concrete sheet names; shapes of ranges are concrete per unit (values symbolic); pyvc interpreter (cross-check + canary); z3/cvc5.',
+    trusted_base=['intrinsic axioms of the uninterpreted builtins (pyvc/models.py UF_AXIOMS), natively tested on every run', 'openpyxl.utils (range_boundaries, get_column_letter) - external'],
+    explanation='C03: reference-resolution contracts proved per function on the real code for all values; range geometry swept completely per column.', assumptions=COMMON_ASSUMPTIONS,
 )
 
 PROPS['C04'] = dict(
     unit_modules=['contracts.c04_evaluate'], driver_modules=['drivers.c04'], level='other',
-    level_text='tbd', level_note='tbd', assumptions=COMMON_ASSUMPTIONS,
+    level_text="The contract of the real Evaluator.evaluate / resolve_names / EvaluatorContext / Model.set_cell_value, interpreted from source on real Model, XLCell and XLFormula objects whose compiled tree is an opaque logged collaborator yielding SYMBOLIC values: the result is what the tree yields under a context for THIS cell and becomes the stored value; a defined name evaluates its cell; set_cell_value by address, by name (also when the name keeps its own copy of the cell) or on a cell that did not exist writes exactly the addressed cell; and 3-step histories 'evaluate; change an input (address / name / new cell); evaluate' yield what a fresh evaluation of the current inputs yields - for ALL values of every primitive type. Longer histories over real formulas (6 small models, every history up to length 3-4 plus 1500/20000 random ones up to length 8, two evaluators) are BOUNDED, compared with freshly compiled models. Claimed 'other': the statement quantifies over all histories and all formula graphs.",
+    level_note='Trusted: the formula tree as an opaque collaborator (its own behaviour is C01/C03/C07...); read frames (stale value / need_update never read) are proof devices stronger than the statement and never escalate to a violation on their own; pyvc interpreter (cross-check + canary); z3.',
+    trusted_base=['intrinsic axioms of the uninterpreted builtins (pyvc/models.py UF_AXIOMS), natively tested on every run', 'opaque collaborator: XLFormula.ast.eval(context)'],
+    explanation='C04: evaluate/set_cell_value contracts and 3-step histories proved for all values; longer histories bounded against fresh models.', assumptions=COMMON_ASSUMPTIONS,
 )
 PROPS['C05'] = dict(
     unit_modules=['contracts.c04_evaluate'], driver_modules=['drivers.c04'], level='other',
-    level_text='tbd', level_note='tbd', assumptions=COMMON_ASSUMPTIONS,
+    level_text="On the real code for ALL values: a constant cell yields its value and nothing is written or evaluated; an address without a cell reads as blank and no cell appears; the memo of evaluated cells belongs to one EvaluatorContext (each cell once per context, another context shares nothing); histories 'evaluate; set; evaluate; a second Evaluator' agree with a fresh evaluation for every way of setting (address, name, new cell, none); no function or class on the evaluation path carries a process-lifetime memo (finite scan of the real modules for lru_cache/cache decorators - the footprint clause). Order independence over real formulas (every permutation of the cells of 7 models on 3 evaluators, random repeated orders) and the measured footprint after 3000/12000 evaluations are BOUNDED. Claimed 'other'.",
+    level_note='Trusted: opaque formula tree; tracemalloc measurement in the bounded layer (threshold, not proof); decorator scan covers the six modules named in the unit; pyvc interpreter (cross-check + canary).',
+    trusted_base=['intrinsic axioms of the uninterpreted builtins (pyvc/models.py UF_AXIOMS), natively tested on every run', 'opaque collaborator: XLFormula.ast.eval(context)'],
+    explanation='C05: read-only/idempotence contracts of evaluate and per-context memo proved; orders and footprint bounded.', assumptions=COMMON_ASSUMPTIONS,
 )
 
 PROPS['C06'] = dict(
     unit_modules=['contracts.c04_evaluate'], driver_modules=['drivers.c06'], level='other',
-    level_text='tbd', level_note='tbd', assumptions=COMMON_ASSUMPTIONS, driver_budget_s=200,
+    level_text="Ghost state = the evaluator's path of cells being evaluated. On the real Evaluator.evaluate: a cell already on the path raises a cycle report BEFORE its formula is touched (self, below, above); the path is restored on every exit (value, failure); other cells on the path never make a cell a cycle (diamonds, repeats); a failing formula leaves the stored value alone; and len(report) <= len(report from below) + len(address) + len(formula) + 60 for ALL message and formula texts (symbolic strings) - linear growth per level, hence polynomial overall. That every cyclic dependency graph reaches such a state promptly, and that acyclic graphs never do, is BOUNDED: all digraphs on <= 4 cells with cell and range edges, chains up to depth 400/900 in child processes with a memory limit, wall-time and message-size fits. Claimed 'other'.",
+    level_note='Trusted: ghost attribute `_evaluating` of Evaluator (if renamed the units go undecided); opaque formula tree (a formula-shape-dependent shortcut inside evaluate is only visible to the bounded layer); RLIMIT_AS / timing thresholds of the bounded layer; pyvc interpreter.',
+    trusted_base=['intrinsic axioms of the uninterpreted builtins (pyvc/models.py UF_AXIOMS), natively tested on every run', 'opaque collaborator: XLFormula.ast.eval(context)'],
+    explanation='C06: cycle-detection and message-growth step contracts proved on evaluate; whole-graph behaviour bounded.', assumptions=COMMON_ASSUMPTIONS, driver_budget_s=200,
 )
 
 PROPS['C10'] = dict(
     unit_modules=['contracts.c10_logical'], driver_modules=['drivers.c10'], level='other',
-    level_text='tbd', level_note='tbd', assumptions=COMMON_ASSUMPTIONS,
+    level_text="The real logical.IF/AND/OR/NOT, interpreted through the real validate_args wrapper with logged argument thunks yielding SYMBOLIC values of every class (Boolean, Number int/float, Blank, errors): IF evaluates the condition once and exactly the selected branch, returns it (FALSE / 0 defaults when omitted), an error condition is the result; AND/OR over 1-3 arguments follow the statement's truth rules, skip text/blank as stated and return the first error; NOT negates the truth value; FunctionNode.eval hands thunks to lazy parameters and evaluates nothing itself. 422 obligations, unbounded in the values; argument lists are covered up to length 3 and formula-level use (nesting, ranges as arguments, 1/0 in the unselected branch) is BOUNDED. Claimed 'other' because of the length bound.",
+    level_note="Trusted: argument thunks as specification stubs (their evaluation is C04's contract); floats as reals; pyvc interpreter (cross-check + canary); z3.",
+    trusted_base=['intrinsic axioms of the uninterpreted builtins (pyvc/models.py UF_AXIOMS), natively tested on every run'],
+    explanation='C10: laziness (ghost log of thunk calls) and truth rules proved on the real functions for all values, lists up to 3.', assumptions=COMMON_ASSUMPTIONS,
 )
 
 PROPS['C14'] = dict(
     unit_modules=['contracts.c14_aggregates'], driver_modules=['drivers.c14'], level='other',
-    level_text='tbd', level_note='tbd', assumptions=COMMON_ASSUMPTIONS,
+    level_text="The real SUM, AVERAGE, MIN, MAX, COUNT, COUNTA interpreted through validate_args / _validate / flatten on a 3-cell range whose cells fork over {number int/float with SYMBOLIC value, blank, text} plus a scalar: the result is the reference fold of exactly the numeric (non-empty) values - all values, every fill pattern of the 3 cells; SUMPRODUCT: differently shaped ranges (also with equal cell counts) give #VALUE!, equal shapes the sum of position-wise products (symbolic 2x2). Permutation invariance, additivity over splits and MIN <= AVERAGE <= MAX follow from those equalities. Longer ranges (up to 400 cells), every fill pattern of 2x3 blocks, permutations and splits through formulas are BOUNDED. Claimed 'other': bounded in the number of cells. Known finding: COUNT/COUNTA stop at 255 values (pinned by existing tests).",
+    level_note='Trusted: pandas/numpy array plumbing of the concrete 3-cell ranges runs natively; floats as reals (Python 3.12 compensated sum differs from the left fold by rounding only: tolerance in the bounded layer); pyvc interpreter (cross-check + canary).',
+    trusted_base=['intrinsic axioms of the uninterpreted builtins (pyvc/models.py UF_AXIOMS), natively tested on every run', 'numpy / pandas containers (native)'],
+    explanation='C14: fold equalities proved for all values on 3+1 cells; longer ranges and rearrangements bounded.', assumptions=COMMON_ASSUMPTIONS,
 )
 PROPS['C15'] = dict(
     unit_modules=['contracts.c15_lookup'], driver_modules=['drivers.c15'], level='other',
-    level_text='tbd', level_note='tbd', assumptions=COMMON_ASSUMPTIONS,
+    level_text="On the real code with SYMBOLIC numbers: CHOOSE (index inside 1..n truncated, #VALUE! outside); MATCH over a 3-cell column - exact match = first equal position or #N/A, approximate match on ascending data = last position not exceeding the key; VLOOKUP over a 3x3 table - requested column of the FIRST row whose key equals the lookup value, #N/A if none, an error for a column outside; xlcriteria.parse_criteria for 16 criteria (every operator prefix, numeric and text operands) applied to a symbolic cell of every class - holds exactly when the statement's criterion holds; COUNTIF over a 3-cell column = the number of cells for which it holds. Unbounded in the values, BOUNDED in the number of cells (3); longer columns, duplicates, text keys in other letter case, wildcards-free criteria sweeps and SUMIF-style use are bounded against a linear scan. Claimed 'other'.",
+    level_note="Trusted: str.upper as uninterpreted; the criterion's regular expression runs natively on the concrete criterion text; pandas/numpy containers; floats as reals; pyvc interpreter (cross-check + canary).",
+    trusted_base=['intrinsic axioms of the uninterpreted builtins (pyvc/models.py UF_AXIOMS), natively tested on every run', 'numpy / pandas containers (native)'],
+    explanation='C15: lookup and criteria contracts proved for all values on 3 cells; longer scans bounded.', assumptions=COMMON_ASSUMPTIONS,
 )
 
 PROPS['C16'] = dict(
     unit_modules=['contracts.c16_math'], driver_modules=['drivers.c16'], level='other',
-    level_text='tbd', level_note='tbd', assumptions=COMMON_ASSUMPTIONS,
+    level_text="What a proof over the reals can decide, on the real math functions: wiring - each elementary function hands the right argument(s) to the right numpy/math routine (ATAN2(x,y)=atan2(y,x), LOG(x,b)=ln x/ln b, ...); domain - arguments outside the domain give an Excel error value, never a Python exception (ACOS/ASIN/ACOSH/SQRT/SQRTPI/FACT/FACTDOUBLE/LN/LOG10/LOG/MOD); exact - ABS, SIGN, EVEN, TRUNC(x), MOD(x,y) = x - y*floor(x/y) with the sign-of-divisor lemma. The statement's actual content - agreement with correctly rounded IEEE-754 / exact decimal reference values to a few ulp for ROUND/ROUNDUP/ROUNDDOWN/TRUNC(n)/INT/CEILING/FLOOR/MOD/POWER and the elementary functions - is NOT provable with floats as reals and is BOUNDED: against `decimal` and mpmath on boundary and seeded inputs. Claimed 'other'.",
+    level_note="Assumption A-float is decisive here: ulp accuracy, overflow and every decimal-representation effect are invisible to the proof layer. Trusted: numpy/math routines as uninterpreted functions; decimal / mpmath as the bounded layer's oracle.",
+    trusted_base=['intrinsic axioms of the uninterpreted builtins (pyvc/models.py UF_AXIOMS), natively tested on every run', 'numpy ufuncs / math functions as uninterpreted (wiring only)', 'mpmath + decimal (bounded oracle)'],
+    explanation='C16: wiring, domain and exact-arithmetic facts proved; numerical accuracy bounded against decimal/mpmath.', assumptions=COMMON_ASSUMPTIONS,
 )
 
 PROPS['C18'] = dict(
     unit_modules=['contracts.c18_dates'], driver_modules=['drivers.c18'], level='other',
-    level_text='tbd', level_note='tbd', assumptions=COMMON_ASSUMPTIONS, driver_budget_s=150,
+    level_text="On the real code for EVERY whole serial (symbolic integer) over an exact day-ordinal model of datetime: number_to_datetime / datetime_to_number realise the 1900 system's offset (serial 1 = 1900-01-01, 59 = 1900-02-28, 61 = 1900-03-01), are monotone and mutually inverse for every whole serial but 60; YEAR/MONTH/DAY/ISOWEEKNUM select the respective field of that date; WEEKDAY applies the right rotation for each return type; DAYS is the difference of serials. The Gregorian field functions of an ordinal (datetime's own arithmetic), relativedelta and the yearfrac package are assumed dependencies: DATE, EDATE, EOMONTH, DATEDIF, YEARFRAC and the time-of-day fraction are BOUNDED (exhaustive over all 2,958,465 serials in the thorough tier; boundary and seeded serials in the quick tier). Claimed 'other'. Known finding: TIME fractions (pinned).",
+    level_note='Trusted: pyvc/models_datetime.py (ordinal arithmetic; YEAR_OF/MONTH_OF/DAY_OF/ISOWEEK_OF uninterpreted with range axioms); dateutil.relativedelta, yearfrac - external, bounded only; whole days only in the proof layer.',
+    trusted_base=['intrinsic axioms of the uninterpreted builtins (pyvc/models.py UF_AXIOMS), natively tested on every run', 'pyvc/models_datetime.py: exact ordinal arithmetic of datetime/timedelta on whole days', 'dateutil.relativedelta, yearfrac (external; bounded only)'],
+    explanation='C18: serial/ordinal bijection and field selection proved for all whole serials; calendar arithmetic of dependencies bounded (exhaustive in thorough).', assumptions=COMMON_ASSUMPTIONS, driver_budget_s=150,
 )
 
 PROPS['C20'] = dict(
     unit_modules=['contracts.c20_financial'], driver_modules=['drivers.c20'], level='other',
-    level_text='tbd', level_note='tbd', assumptions=COMMON_ASSUMPTIONS,
+    level_text="The real NPV, SLN, XNPV (+_xnpv), PMT, PV, IRR interpreted from source for SYMBOLIC rates, flows and dates with pow uninterpreted (natively tested axioms): NPV = sum c_i (1+r)^-i and XNPV = sum v_i/(1+r)^((d_i-d_1)/365) term by term with the RIGHT flow, rate and position (lists/ranges of length 1-3), NPV at rate 0 is the plain sum, linearity as a lemma; SLN = (cost - salvage)/life; PMT/PV hand (rate, nper, pv|pmt, fv, timing) to numpy_financial in the right places; IRR hands the root finder exactly the given flows in order (a zero flow keeps its period). The closed forms inside numpy_financial, the root finders (IRR/XIRR within 1e-6 of the bisection root of the reference NPV/XNPV) and series up to 30 flows are BOUNDED. Claimed 'other'. Known finding: XIRR drops zero flows (pinned).",
+    level_note='Trusted/assumed: numpy_financial pmt/pv/irr (external; uninterpreted or logged collaborator), scipy-free bisection as the bounded oracle; pow axioms; floats as reals; rates restricted to (-0.9, 10] as in the statement.',
+    trusted_base=['intrinsic axioms of the uninterpreted builtins (pyvc/models.py UF_AXIOMS), natively tested on every run', 'assumed contract: numpy_financial.pmt / pv / irr'],
+    explanation='C20: defining equations proved term by term for all rates/flows up to 3 terms; closed forms of the dependency and root finding bounded.', assumptions=COMMON_ASSUMPTIONS,
 )
 
 PROPS['C08'] = dict(
     unit_modules=['contracts.c08_coercion'], driver_modules=['drivers.c08'], level='other',
-    level_text='tbd', level_note='tbd', assumptions=COMMON_ASSUMPTIONS,
+    level_text="On the real code: Number.cast and Text.cast (the conversions validate_args applies) over every spelling class with SYMBOLIC content - native int/float/bool/str/None, Number, Boolean, Blank, Text: numbers stay, TRUE=1, FALSE=0, blank=0, numeric text is the number it reads as, other text gives #VALUE!, the text form does not depend on the spelling; OP_ADD/SUB/MUL/DIV over all pairs of {Number int/float, Boolean, Blank, numeric Text}; FunctionNode.eval looks the function up under the upper-case name without an _xlfn. prefix and hands its arguments over once, in order (6 spellings interpreted; every registered name x 12 spellings by a finite scan of the real registry); every scalar parameter of every registered function is annotated with a converting alias and no conversion is memoised by argument equality (finite scans). Agreement of whole function calls across spellings (all registered functions, text spellings, formulas) is BOUNDED. Claimed 'other'.",
+    level_note='Trusted: int()/float()/str() of text and numbers, str.lower, dateutil.parser.parse as uninterpreted functions with natively tested axioms; floats as reals; scans read the registry as imported in the check process; pyvc interpreter (cross-check + canary).',
+    trusted_base=['intrinsic axioms of the uninterpreted builtins (pyvc/models.py UF_AXIOMS), natively tested on every run', 'assumed contract: dateutil.parser.parse'],
+    explanation='C08: conversion contracts proved per spelling class for all contents; registry-wide facts by finite scans; cross-spelling agreement of whole calls bounded.', assumptions=COMMON_ASSUMPTIONS,
 )
 
 PROPS['C13'] = dict(
     unit_modules=['contracts.c13_extract', 'contracts.c04_evaluate'], driver_modules=['drivers.c13'], level='other',
-    level_text='tbd', level_note='tbd', assumptions=COMMON_ASSUMPTIONS,
+    level_text="The real ModelCompiler.extract (worklist loop interpreted from source, copy.deepcopy by its structural model, build_code an opaque logged collaborator) on 6 dependency shapes x 2-3 focus lists with SYMBOLIC constant cells of every primitive type: the extracted model holds the hand-written dependency closure of the focus (references, cells of ranges, what names stand for, quoted sheets); every extracted cell carries the original's value, formula text and terms; names and ranges are carried over; nothing is shared with the original (fresh objects), the original's tables and cell contents are unchanged and none of its attributes is written; build_code runs once, last, on the extracted model. Model.set_cell_value writes the cell AT the address also when a name keeps its own copy of the cell (as after extraction). Unbounded in the values, BOUNDED in the dependency shape; equality of evaluated values after input changes (by address and by name) is bounded: 6 models x every non-empty focus subset x change sets. Claimed 'other'.",
+    level_note="Trusted: structural model of copy.deepcopy (no class of the repository defines __deepcopy__; checked); the composition 'same closure + same contents => same values' relies on C03/C04 and is argued in DESIGN.md; pyvc interpreter (cross-check + canary).",
+    trusted_base=['intrinsic axioms of the uninterpreted builtins (pyvc/models.py UF_AXIOMS), natively tested on every run', 'pyvc model of copy.deepcopy'],
+    explanation='C13: closure/freshness/frame contract of extract proved for all values on fixed shapes; value equivalence bounded.', assumptions=COMMON_ASSUMPTIONS,
 )
 
 PROPS['C12'] = dict(
     unit_modules=['contracts.c12_persist'], driver_modules=['drivers.c12'], level='other',
-    level_text='tbd', level_note='tbd', assumptions=COMMON_ASSUMPTIONS,
+    level_text="On the real Model.persist_to_json_file / construct_from_json_file with the file system and jsonpickle as logged opaque collaborators, for ALL file names (symbolic string, os.path.splitext uninterpreted): both ends choose gzip by the SAME predicate (lower-cased extension .gz/.gzip) and open the same path in binary mode; exactly the four tables cells/defined_names/formulae/ranges - the model's own objects - are encoded with keys=True and written once, the model is untouched; the four tables are restored from the entries of the same names, decoded with keys=True, and build_code runs afterwards iff requested. Together with the ASSUMED round-trip contract of jsonpickle for the repository's dataclasses this gives the statement; that assumption and 'every cell evaluates to the same value' are BOUNDED: 5 models (all value types, non-ASCII, huge/tiny floats, dates, errors, ranges, names, sheets) x 5 points of the history x 4 extensions. Claimed 'other'.",
+    level_note='Trusted/assumed: jsonpickle.encode/decode round-trip structurally (external; bounded only); gzip/open; os.path.splitext as an uninterpreted function; pyvc interpreter; z3.',
+    trusted_base=['intrinsic axioms of the uninterpreted builtins (pyvc/models.py UF_AXIOMS), natively tested on every run', 'assumed contract: jsonpickle.decode(jsonpickle.encode(x, keys=True), keys=True) is structurally x'],
+    explanation='C12: opener symmetry and payload frames proved for all file names; value fidelity through jsonpickle bounded.', assumptions=COMMON_ASSUMPTIONS,
 )
 
 PROPS['C11'] = dict(
     unit_modules=['contracts.c11_reader'], driver_modules=['drivers.c11'], level='other',
-    level_text='tbd', level_note='tbd', assumptions=COMMON_ASSUMPTIONS,
+    level_text="The repository's own part of loading, on the real code: Reader.read_cells over a workbook of two sheets x two stored cells with SYMBOLIC sheet titles, values, formula texts and cached values, every storage class (value / formula / array formula) and an arbitrary ignored title - one cell per stored cell of every sheet not ignored, addressed title!coordinate, holding its constant or its formula (made for ITS OWN sheet) with the cached result, ignored sheets contribute nothing; read_defined_names hands over every visible name with its target (symbolic); parse_archive makes the tables read the model's tables and binds names, links cells, builds ranges in that order; build_defined_names binds a (symbolic) name for every shape of target. The XML side (openpyxl + the cached-value patch), shared-formula expansion and evaluation equality are BOUNDED: raw SpreadsheetML workbooks written by the check (1-4 sheets, all cell storage forms, names, every ignore subset). Claimed 'other'.",
+    level_note='Trusted: openpyxl (XML parsing, shared-formula translation) and mock.patch - external, exercised only by the bounded layer; XLCell/XLFormula constructors are opaque in the read_cells unit (their own contracts: C02/C03); pyvc interpreter; z3/cvc5 strings.',
+    trusted_base=['intrinsic axioms of the uninterpreted builtins (pyvc/models.py UF_AXIOMS), natively tested on every run', 'openpyxl reader + xlcalculator.patch (external / bounded only)'],
+    explanation='C11: reader glue proved for all titles/values on a fixed workbook shape; file-level fidelity bounded on generated SpreadsheetML.', assumptions=COMMON_ASSUMPTIONS,
 )
